@@ -77,6 +77,8 @@ DEFAULT_PROFILE: Dict[str, Any] = {
     'imports_last': False,    # every module defines first and imports at the bottom (so a module that is read while half built
                               # - import cycles - has already defined everything it defines itself)
     'back_edge_bottom': False,  # cyclic worlds: the imports that close a cycle sit at the bottom of the module, after every definition
+    'case_twins': 0.0,        # probability per class of members whose names differ only in case
+    'dup_mixed': False,       # duplicates inside a class body may change kind (`x = None` then `def x(self)` / `@property`)
     'prefer_local': 0.0,      # probability per import statement of importing only names the target module defines itself
     'inner_defs': 0.0,        # probability per function of local definitions in its body (plain or async function): never documented
     'var_ann': 0.0,           # probability that a variable is annotated with a class visible in its scope
@@ -224,6 +226,24 @@ class _Gen:
             st['body'].append(m)
         if rng.chance(0.4):
             st['body'].append(self.mk_var(rng, mod, outer=cid))
+        if p.get('case_twins', 0) and rng.sub('twins?').chance(p['case_twins']):
+            # a member whose name differs from a sibling's only in case (get / GET): the two tie under case-insensitive sort keys
+            tr = rng.sub('twins')
+            for ms in list(st['body']):
+                if ms['k'] in ('func', 'var') and ms['name'].upper() != ms['name'] and ms['name'].upper() not in self.defs[cid]['members']:
+                    tw = self.mk_func(tr, mod, outer=cid) if ms['k'] == 'func' else self.mk_var(tr, mod, outer=cid)
+                    self.defs[cid]['members'].pop(tw['name'], None)
+                    self.cns[cid].pop(tw['name'], None)
+                    tw['name'] = ms['name'].upper()
+                    self.defs[tw['id']]['name'] = tw['name']
+                    if ms['k'] == 'func':
+                        tw['deco'] = ms.get('deco')
+                        self.defs[tw['id']]['kind'] = self.defs[ms['id']]['kind']
+                    self.defs[cid]['members'][tw['name']] = tw['id']
+                    self.cns[cid][tw['name']] = ['d', tw['id']]
+                    st['body'].append(tw)
+                    if tr.chance(0.6):
+                        break
         if p.get('attr_pool', 0) and rng.chance(p['attr_pool']):
             an = rng.choice(self.ATTR_POOL)
             form = rng.weighted([('ivar', 2), ('cvar', 2), ('decl', 2)])
@@ -718,15 +738,22 @@ class _Gen:
                     self.exotic.add('shadow_import')
         # duplicate definition of a member inside a class body (the class may later be moved by a re-export)
         if rng.chance(p['dup'] * 0.6):
-            classes = [st for st in body if st['k'] == 'class' and any(ms['k'] == 'func' for ms in st['body'])]
+            mixed = bool(p.get('dup_mixed'))
+            kinds = ('func', 'var') if mixed else ('func',)
+            classes = [st for st in body if st['k'] == 'class' and any(ms['k'] in kinds for ms in st['body'])]
             if classes:
                 cst = rng.choice(classes)
-                ms = rng.choice([x for x in cst['body'] if x['k'] == 'func'])
-                st2 = self.mk_func(rng, mod, outer=cst['id'])
+                ms = rng.choice([x for x in cst['body'] if x['k'] in kinds])
+                # the second binding is of the same kind, or (dup_mixed) of the other one: `x = None` ... `def x(self)`
+                k2 = ms['k']
+                if mixed and rng.sub('k2').chance(0.5):
+                    k2 = 'var' if k2 == 'func' else 'func'
+                st2 = self.mk_func(rng, mod, outer=cst['id']) if k2 == 'func' else self.mk_var(rng, mod, outer=cst['id'])
                 self.defs[cst['id']]['members'].pop(st2['name'], None)
                 self.cns[cst['id']].pop(st2['name'], None)
                 st2['name'] = ms['name']
-                st2['deco'] = ms.get('deco')
+                if k2 == 'func':
+                    st2['deco'] = ms.get('deco') if ms['k'] == 'func' else rng.sub('deco').choice([None, 'property'])
                 self.defs[st2['id']]['name'] = ms['name']
                 self.defs[st2['id']]['dup_of'] = ms['id']
                 cst['body'].insert(cst['body'].index(ms) + 1, st2)
